@@ -32,6 +32,38 @@ func checkC10(w *World, r *Report) {
 	c01ReadOwnBatch(w, r, a, "C10.c", "c-apply-reads-own-batch")
 	c02OneSnapshot(w, r, a, "C10.d", "d-readonly-txn-one-state")
 	c05Batching(w, r, "C10.e", "e-follower-index-not-ahead")
+	// a streamed read comes from one iterator, hence one state: the generator opens its Pebble
+	// iterator once, outside its loop (C09.a checks the full protocol)
+	{
+		ob := r.Ob("C10.h", "h-streamed-read-one-state", "every range generator of the state machine (the lazy sequence behind Range / IterateRange) calls NewIter exactly once and not inside a loop", "a stream that closes and re-opens its iterator between two messages mixes several states: the old value of one key with the new value of another written by the same transaction - a state that never existed")
+		_, gens := findRangeGenerators(w)
+		if len(gens) == 0 {
+			ob.Undecided("anchor", "no range generator found")
+		}
+		for _, gen := range gens {
+			n := 0
+			eachInstr(gen, func(in ssa.Instruction) {
+				c := callOf(in)
+				if c == nil {
+					return
+				}
+				if (c.IsInvoke() && c.Method.Name() == "NewIter") || strings.HasSuffix(CalleeName(c), ".NewIter") {
+					n++
+					ob.Site(in.Pos(), "iterator opened in "+FnName(gen))
+					if inCycle(in.Block()) {
+						ob.Violate("newiter-in-loop@"+FnName(gen), in.Pos(), "the range generator opens a Pebble iterator inside its loop: one stream reads from several states")
+					}
+				}
+			})
+			if n != 1 {
+				ob.Violate("newiter-count@"+FnName(gen), gen.Pos(), "the range generator opens "+itoa(n)+" Pebble iterators, expected exactly one")
+			}
+		}
+		ob.NeedFloor(1)
+	}
+	// a transaction with several single-key predicates evaluates each under its own key (the
+	// shared key buffer is emptied between them, C12.d3)
+	c12BufferReuse(w, r, "C10.g", "g-predicates-under-their-own-keys")
 	// on a follower a write is acknowledged only once it is applied locally: otherwise a
 	// linearizable read on that node, started after the acknowledgement, misses it
 	if q := findQueue(w); q != nil {
